@@ -413,6 +413,8 @@ class Arr:
         i = unopt(i)
         if isinstance(i, Custom) and isinstance(i.h, Arr):
             return Custom(Lookup(self, i.h))
+        if isinstance(i, Custom) and isinstance(i.h, (MaskWin, MaskSel)):
+            return filtered(eng, p, self, i.h, node)
         raise Unsupported("array[...] with an index of type " + type(i).__name__)
 
     # stores -> [paths]
@@ -427,6 +429,110 @@ class Arr:
         if isinstance(i, Custom) and isinstance(i.h, CmpMask):
             return store(eng, p, self, ("mask", i.h), v, node)
         raise Unsupported("array[...] = with an index of type " + type(i).__name__)
+
+
+PC = z3.Function("mask_true_count", I, I, I)                  # (a, b) -> number of True entries of the row mask in [a, b)
+SELDEF = z3.Function("selected_and_equal_count", I, I, I, I, I)   # (a, b, array, v) -> positions j of the window with mask[a+j] and array[j] == v
+
+
+def pc_facts(a, b, L):
+    """instances of: 0 <= count(a, b) <= b - a and count(0, a) + count(a, b) == count(0, b) for 0 <= a <= b <= len(mask)"""
+    ok = z3.And(0 <= a, a <= b, b <= L)
+    return [z3.Implies(ok, z3.And(PC(a, b) >= 0, PC(a, b) <= b - a, PC(0, a) + PC(a, b) == PC(0, b), PC(0, a) >= 0, PC(0, b) <= b))]
+
+
+def seldef_facts(a, b, arr, v):
+    sd = SELDEF(a, b, arr.cid(), v)
+    c = CNT(arr.cid(), v)
+    return [sd >= 0, sd <= PC(a, b), sd <= c, z3.Implies(b - a == arr.n, PC(a, b) - sd <= arr.n - c)]
+
+
+class MaskArr:
+    """the caller's boolean row mask of the row group (numpy bool array of L entries)"""
+    tracked = False
+
+    def __init__(self, L):
+        self.L = L
+
+    def isinstance(self, eng, p, tn):
+        return z3.BoolVal("ndarray" in tn)
+
+    def is_none(self, eng, p):
+        return z3.BoolVal(False)
+
+    def len(self, eng, p):
+        return PyI(self.L)
+
+    def call_method(self, eng, p, name, args, kw, node):
+        if name == "sum" and not args:
+            p.pc += [PC(0, self.L) >= 0, PC(0, self.L) <= self.L]
+            return [(p, PyI(PC(0, self.L)))]
+        raise Unsupported("row_filter." + name)
+
+    def slice(self, eng, p, lo, hi, node):
+        a = eng.as_int(lo, p) if lo is not None else z3.IntVal(0)
+        b = eng.as_int(hi, p) if hi is not None else self.L
+        eng.oblige(p, f"{eng.cur_func}.slice_start_nonnegative@L{node.lineno}", "safety", a >= 0, node)
+        a2, b2 = zmin(a, self.L), zmin(zmax(b, 0), self.L)
+        w = MaskWin(self, z3.simplify(a2), z3.simplify(zmax(b2, a2)), z3.simplify(a), z3.simplify(b))
+        p.pc += pc_facts(w.a, w.b, self.L)
+        emit(p, kind="mask_window", win=w, line=node.lineno)
+        return Custom(w)
+
+
+class MaskWin:
+    """row_filter[a:b]"""
+    tracked = False
+
+    def __init__(self, mask, a, b, a_raw, b_raw):
+        self.mask, self.a, self.b, self.a_raw, self.b_raw = mask, a, b, a_raw, b_raw
+        self.n = z3.simplify(b - a)
+
+    def len(self, eng, p):
+        return PyI(self.n)
+
+    def call_method(self, eng, p, name, args, kw, node):
+        if name == "sum" and not args:
+            return [(p, PyI(PC(self.a, self.b)))]
+        raise Unsupported("row_filter[a:b]." + name)
+
+    def getitem(self, eng, p, i, node):
+        i = unopt(i)
+        if isinstance(i, Custom) and isinstance(i.h, CmpMask):
+            eng.oblige(p, f"{eng.cur_func}.boolean_index_matches_array@L{node.lineno}", "safety", i.h.alen() == self.n, node,
+                       "mask window indexed with a boolean array of another length: numpy raises IndexError")
+            p.pc.append(i.h.alen() == self.n)
+            return Custom(MaskSel(self, i.h))
+        raise Unsupported("row_filter[a:b][...] with an index of type " + type(getattr(i, "h", i)).__name__)
+
+
+class MaskSel:
+    """row_filter[a:b][arr == v]: the mask bits of the positions where arr == v (len = count(arr == v))"""
+    tracked = False
+
+    def __init__(self, win, cmp):
+        self.win, self.cmp = win, cmp
+
+
+def filtered(eng, p, arr, idx, node):
+    """arr[<boolean index built from the row mask>] -> new array: the entries of arr at the True positions, in order"""
+    if isinstance(idx, MaskWin):
+        need, n, cmp = idx.n, PC(idx.a, idx.b), None
+        win = idx
+    else:
+        win, cmp = idx.win, idx.cmp
+        if cmp.op != "==":
+            raise Unsupported("mask restricted by a != comparison")
+        c = CNT(cmp.arr.cid(), cmp.val)
+        p.pc += [c >= 0, c <= cmp.arr.root.n] + seldef_facts(win.a, win.b, cmp.arr, cmp.val)
+        need, n = c, SELDEF(win.a, win.b, cmp.arr.cid(), cmp.val)
+    eng.oblige(p, f"{eng.cur_func}.boolean_index_matches_array@L{node.lineno}", "safety", need == arr.n, node,
+               "array indexed with a boolean array of another length: numpy raises IndexError")
+    p.pc.append(need == arr.n)
+    root = Root("filtered:" + arr.root.name, z3.simplify(n), arr.root.item)
+    set_content(p, root, ("filtered", arr, win, cmp))
+    emit(p, kind="filtered", src=arr, win=win, cmp=cmp, out=root, line=node.lineno)
+    return Custom(Arr(root))
 
 
 class CmpMask:
@@ -742,7 +848,12 @@ class PEngine(Engine):
                     if arr is None:
                         out.append((r, PyB(self.compare(e.ops[0], a, b, r, e))))
                     elif isinstance(arr, Arr) and isinstance(other, (PyI, PyB)):
-                        out.append((r, Custom(CmpMask(arr, "==" if isinstance(e.ops[0], ast.Eq) else "!=", self.as_int(other, r)))))
+                        v = self.as_int(other, r)
+                        c = content(r, arr.root)
+                        if isinstance(c, tuple) and c[0] == "filtered" and c[3] is None:
+                            # entries of the filtered array equal to v = selected positions of the window whose source entry is v
+                            r.pc += seldef_facts(c[2].a, c[2].b, c[1], v) + [CNT(arr.cid(), v) == SELDEF(c[2].a, c[2].b, c[1].cid(), v)]
+                        out.append((r, Custom(CmpMask(arr, "==" if isinstance(e.ops[0], ast.Eq) else "!=", v))))
                     else:
                         out.append((r, Custom(AnyMask())))
             return out
@@ -1580,10 +1691,12 @@ def run_data_page_v1(ctx, funcs, timeout):
                                 z3.Implies(E == ENC["DELTA_BINARY_PACKED"], z3.Or(S.ptype == TY["INT32"], S.ptype == TY["INT64"]))]
     p.pc += width_facts(S.max_def) + width_facts(S.max_rep)
     f.set(p, entry)
-    # input regions of the findings recorded for read_data_page: BIT_PACKED levels decoded as RLE; RLE booleans (length prefix not skipped);
-    # dictionary-encoded BOOLEAN (width byte not consumed)
-    eng.default_region = z3.Or(page.dle != ENC["RLE"], page.rle != ENC["RLE"], E == ENC["RLE"],
-                               z3.And(in_set(E, DICT_ENCS), S.ptype == TY["BOOLEAN"]))
+    # input region of the open finding recorded for read_data_page: BIT_PACKED levels decoded as RLE.  (RLE booleans whose length prefix
+    # was not skipped and dictionary-encoded BOOLEAN pages whose width byte was not consumed are repaired in /repo: c8ef5ea, efe7e45 -
+    # their obligations are plain obligations again)
+    # (BIT_PACKED levels decoded as RLE: repaired in the working tree of /repo as well - read_def / read_rep hand the declared level
+    # encoding to read_data, which raises for anything but RLE; no open region is left for this function)
+    eng.default_region = None
     st, _, _ = solve(list(p.pc), timeout)
     if st == REFUTED:
         ctx.vacuity["requires_sat"] += 1
@@ -1664,13 +1777,13 @@ def run_data_page_v1(ctx, funcs, timeout):
         q.pc += [z3.Implies(z3.And(in_set(E, DICT_ENCS), nval >= 1, BYTE(bid, d_end) >= 1), d_end + 1 < body.n),
                  z3.Implies(z3.And(E == ENC["RLE"], nval >= 1), d_end + 4 < body.n), z3.Implies(nval >= 1, d_end < body.n)]
         # ---- values
-        io_body = [e for e in q.ghost.get("ev", []) if e["kind"] in ("read", "read_byte", "hybrid", "delta", "varint") and
+        io_body = [e for e in q.ghost.get("ev", []) if e["kind"] in ("read", "read_byte", "hybrid", "delta", "varint", "seek") and
                    e.get("io") is not None and e["io"].base is not None and e["io"].base.region is body and e not in lev]
         first = io_body[0] if io_body else None
 
         def ev_pos(e):
             return {"read": lambda: e["pos"], "read_byte": lambda: e["pos"], "hybrid": lambda: e["prefix_at"] if e["prefix_at"] is not None
-                    else e["start"], "delta": lambda: e["start"], "varint": lambda: e["pos"]}[e["kind"]]()
+                    else e["start"], "delta": lambda: e["start"], "varint": lambda: e["pos"], "seek": lambda: e["frm"]}[e["kind"]]()
         some = nval >= 1          # a page of nulls only may have an empty values section: nothing is decoded from it
         eng.pose(q, fn + ".values.start_after_levels", z3.Implies(some, ev_pos(first) == d_end) if first is not None else z3.BoolVal(False),
                  "the first byte given to the value decoder is the one after the level blocks (rep block, then def block)")
@@ -1907,13 +2020,24 @@ def marker_ok(src, kind, cat):
     return z3.BoolVal(False)
 
 
-def run_read_col(ctx, funcs, timeout, mode, any_sizes=False):
-    """any_sizes: the run that asks what happens when the pages declare MORE values than ColumnMetaData.num_values / the rows of the row
+def run_read_col(ctx, funcs, timeout, mode, any_sizes=False, mask=False):
+    """mask: C13 - the caller's boolean row mask of the row group is handed over as row_filter (numpy array with one entry per row).
+    Spec: page k owns the window W(k) = [VS(k), VS(k) + n_k) of the mask; the rows kept are the rows of the page at the True
+    positions of W(k), in order; they go to the output window [SEL(k), SEL(k) + count(W(k))) with SEL(k) = count(mask[0 : VS(k)]).
+    any_sizes: the run that asks what happens when the pages declare MORE values than ColumnMetaData.num_values / the rows of the row
     group: the assumption `the data pages sum to num_values` (and with it `pages stay inside the output`) is dropped and one obligation is
     posed on every path that gets through the body: nothing was truncated silently"""
     res = Results()
-    fn, tag = "read_col", f"read_col[{mode}{', pages of any size' if any_sizes else ''}]"
+    fn, tag = "read_col", f"read_col[{mode}{', pages of any size' if any_sizes else ''}{', row_filter mask' if mask else ''}]"
     C = Chunk(mode)
+    M = MaskArr(C.S.num_values) if mask else None
+    if mask:
+        L = C.S.num_values
+        C.pre = [c for c in C.pre if not c.eq(C.len_assign >= C.S.num_values)] + [C.len_assign == PC(0, L), PC(0, L) >= 0, PC(0, L) <= L, PC(0, 0) == 0]
+
+    def out_before(k):
+        """output rows before page k: all rows of the earlier pages, or - with a mask - the selected ones"""
+        return PC(0, C.VS(k)) if mask else C.VS(k)
     if any_sizes:
         C.pre = [c for c in C.pre if not c.eq(C.VS(C.K) == C.S.num_values)]
         # (the monotonicity lemma itself stays: it does not depend on the dropped assumption)
@@ -1978,6 +2102,10 @@ def run_read_col(ctx, funcs, timeout, mode, any_sizes=False):
         vals = Root("values_of_page", z3.simplify(pg.nv - nn), fint("values.itemsize"))
         p.pc += [nn >= 0, nn <= pg.nv, z3.Implies(z3.Or(S.required, skip), nn == 0), CNT(lev.aid, S.max_def) == pg.nv - nn]
         set_content(p, vals, ("page_values", k))
+        if mask:
+            # input regions of the recorded findings: a page with nulls (mask cursor advances by the non-null count, emptiness test on the
+            # wrong window); a page without a selected row (output cursor advances, mask cursor does not)
+            p.ghost["region"] = z3.Or(p.ghost.get("region", z3.BoolVal(False)), nn > 0, PC(C.VS(k), C.VS(k) + pg.nv) == 0)
         emit(p, kind="page_v1", k=k, nn=nn, lev=lev, vals=vals, skip=skip, line=node.lineno)
         # contract: read_data_page.returns.* / values.returned_length_is_num_values_minus_num_nulls
         return outs + [(p, Tup([Opt(nn == 0, Custom(Arr(lev))), NONE, Custom(Arr(vals))]))]
@@ -2000,8 +2128,8 @@ def run_read_col(ctx, funcs, timeout, mode, any_sizes=False):
                           z3.BoolVal(isinstance(a["schema_helper"], Custom) and a["schema_helper"].h is S.helper),
                           z3.BoolVal(isinstance(a["se"], Custom) and a["se"].h is S.se)), node,
                    "read_data_page_v2 gets the chunk cursor right after this page's header, this page's two headers, the column's schema element and metadata")
-        eng.oblige(p, pre + "num_is_rows_so_far", "post", eng.as_int(a["num"], p) == C.VS(k), node,
-                   "the row offset handed to the v2 reader is the number of values of the data pages before this one")
+        eng.oblige(p, pre + "num_is_rows_so_far", "post", eng.as_int(a["num"], p) == out_before(k), node,
+                   "the row offset handed to the v2 reader is the number of (selected) rows of the data pages before this one")
         asg = unopt(a["assign"])
         eng.oblige(p, pre + "output_is_whole_column", "post",
                    z3.BoolVal(isinstance(asg, Custom) and isinstance(asg.h, Arr) and asg.h.root is C.assign and asg.h.whole), node,
@@ -2015,7 +2143,12 @@ def run_read_col(ctx, funcs, timeout, mode, any_sizes=False):
                    "a dictionary-encoded v2 page is dereferenced through the chunk's (converted) dictionary page")
         eng.oblige(p, pre + "flags_passed_on", "post",
                    z3.And(eng.truth(a["use_cat"], p) == z3.BoolVal(cat), eng.truth(a.get("selfmade", PyB(False)), p) == C.selfmade,
-                          z3.BoolVal(isinstance(a.get("row_filter", NONE), NoneV))), node)
+                          z3.BoolVal(isinstance(a.get("row_filter", NONE), NoneV) if not mask else
+                                     (isinstance(a.get("row_filter"), Custom) and a["row_filter"].h is M))), node)
+        if mask:
+            eng.oblige(p, pre + "page_window_of_the_mask_is_identified", "post", z3.And(C.VS(k) == 0, pg.nv2 == M.L), node,
+                       "the v2 reader is handed the WHOLE row mask and no offset into it: it can only select the right rows when the "
+                       "page is the whole row group")
         size = pg.cps - pg.rl - pg.dl
         # contract: read_data_page_v2.page_consumed_exactly (with NumpyIO.read(0) = rest of the buffer when the values section is empty)
         pos = C.io.pos(p)
@@ -2051,13 +2184,16 @@ def run_read_col(ctx, funcs, timeout, mode, any_sizes=False):
         is_dic0 = z3.And(d.h.page == 0, z3.BoolVal(d.h.converted), d.h.n == p0.dnv) if isinstance(d, Custom) and isinstance(d.h, DictVal) \
             else z3.BoolVal(False)
         inv = [("cursor is at the start of page k: infile.tell() == OFF(k)", pos == C.OFF(k)),
-               ("num == number of values of the data pages before page k", num == C.VS(k)),
+               ("num == number of values of the data pages before page k", num == C.VS(k)) if not mask else
+               ("num (output cursor) == number of selected rows before page k: count(mask[0 : VS(k)])", num == PC(0, C.VS(k))),
                ("0 <= k <= number of pages", z3.And(0 <= k, k <= C.K)),
                ("dic is None iff no dictionary page was read, else it is the converted dictionary of page 0",
                 z3.And(isn == z3.Not(has_dict), z3.Implies(z3.Not(isn), is_dic0)))]
         if cat:
             inv.append(("categories are the chunk's dictionary iff it was read, never anything else",
                         p.ghost.get("cats_from", z3.IntVal(-1)) == z3.If(has_dict, 0, -1)))
+        if mask:
+            inv.append(("index_off (mask cursor) == rows of the data pages before page k: VS(k)", eng.as_int(env["index_off"], p) == C.VS(k)))
         return inv
 
     def page_loop(eng, st, p):
@@ -2102,6 +2238,9 @@ def run_read_col(ctx, funcs, timeout, mode, any_sizes=False):
             e2.pc += [z3.Not(c), C.mono(k, C.K), C.mono(z3.IntVal(0), k)]
             e2.ghost["exit_k"] = k
             e2.ghost["region"] = S.num_values != C.len_assign      # finding: the chunk holds fewer values than the row group has rows
+            if mask:
+                e2.pc += pc_facts(C.VS(k), M.L, M.L) + pc_facts(z3.IntVal(0), C.VS(k), M.L)
+                e2.ghost["region"] = z3.BoolVal(False)
             if eng.feasible(e2):
                 outs.append(e2)
         # one arbitrary page
@@ -2111,11 +2250,16 @@ def run_read_col(ctx, funcs, timeout, mode, any_sizes=False):
             pg, facts = C.page_facts(k)
             b2.pc += [c] + facts + [C.mono(k + 1, C.K), C.mono(k, C.K), C.mono(z3.IntVal(0), k)]
             b2.ghost["cur_page"] = (k, pg)
+            if mask:
+                lo_, hi_ = C.VS(k), C.VS(k + 1)
+                b2.pc += pc_facts(lo_, hi_, M.L) + pc_facts(hi_, M.L, M.L) + pc_facts(z3.IntVal(0), lo_, M.L) + pc_facts(z3.IntVal(0), hi_, M.L)
             # input regions of the findings recorded for read_col: v2 page with an empty values section (the cut's contract: cursor
             # at the end of the chunk); categorical read of a chunk with a page that is not dictionary-encoded
             b2.ghost["region"] = z3.Or(z3.And(pg.type == PT["DATA_PAGE_V2"], pg.cps - pg.rl - pg.dl < 1),
                                        z3.And(z3.BoolVal(cat), z3.Or(z3.And(pg.type == PT["DATA_PAGE"], z3.Not(in_set(pg.enc, DICT_ENCS))),
                                                                      z3.And(pg.type == PT["DATA_PAGE_V2"], z3.Not(in_set(pg.enc2, DICT_ENCS))))))
+            if mask:        # + finding: any DATA_PAGE_V2 page under a row mask (the v2 reader is not told where the page lies in the mask)
+                b2.ghost["region"] = z3.Or(b2.ghost["region"], pg.type == PT["DATA_PAGE_V2"])
             if not eng.feasible(b2):
                 continue
             for r in eng.block(st.body, [b2]):
@@ -2158,7 +2302,9 @@ def run_read_col(ctx, funcs, timeout, mode, any_sizes=False):
                 eng.oblige(r, fn + ".dictionary_page.categories_installed_from_it", "post",
                            z3.BoolVal(len(sc) == 1 and isinstance(sc[0]["src"], DictVal) and sc[0]["src"].raw is d), st,
                            "categorical read: the categories are installed once, from this (converted) dictionary")
-        if "page_v1" in kinds:
+        if "page_v1" in kinds and mask:
+            after_body_mask(eng, r, st, k, pg, evs, stores)
+        elif "page_v1" in kinds:
             e1 = next(e for e in evs if e["kind"] == "page_v1")
             nn, lev, vals = e1["nn"], e1["lev"], e1["vals"]
             lo, hi = C.VS(k), C.VS(k) + pg.nv
@@ -2214,6 +2360,71 @@ def run_read_col(ctx, funcs, timeout, mode, any_sizes=False):
         if "page_v2" in kinds:
             eng.oblige(r, fn + ".data_page_v2.rows_written_only_by_the_v2_reader", "post", z3.BoolVal(not stores), st)
 
+    def after_body_mask(eng, r, st, k, pg, evs, stores):
+        e1 = next(e for e in evs if e["kind"] == "page_v1")
+        nn, lev, vals = e1["nn"], e1["lev"], e1["vals"]
+        lo, hi = C.VS(k), C.VS(k) + pg.nv
+        pw, out_lo = PC(lo, hi), PC(0, lo)
+        p0 = C.page(z3.IntVal(0))
+        is_dict = in_set(pg.enc, DICT_ENCS)
+        mw = [e["win"] for e in evs if e["kind"] == "mask_window"]
+        eng.oblige(r, fn + ".mask.window_is_the_rows_of_the_page", "post",
+                   z3.And(z3.BoolVal(bool(mw)), *[z3.And(w.a_raw == lo, w.b_raw == hi) for w in mw]), st,
+                   "every slice of the row mask taken for page k is row_filter[VS(k) : VS(k) + num_values]: the rows of exactly this page")
+        if not stores:
+            eng.oblige(r, fn + ".mask.page_skipped_only_if_no_row_selected", "post", pw == 0, st,
+                       "a page is passed over without writing only when its window of the mask has no True entry")
+            return
+        eng.oblige(r, fn + ".data_page.filtered_rows_are_next_output_window", "post",
+                   z3.And(*[z3.And(e["tgt"].lo_raw == out_lo, e["tgt"].hi_raw == out_lo + pw, e["tgt"].off == out_lo, e["tgt"].n == pw)
+                            for e in stores]), st,
+                   "the kept rows of page k go to assign[SEL(k) : SEL(k) + count(window)], SEL(k) = selected rows before the page: no gap, "
+                   "no overlap, order kept in the FILTERED output")
+
+        def filt(root):
+            c = content(r, root)
+            return c if isinstance(c, tuple) and c[0] == "filtered" else None
+
+        def win_ok(w):
+            return z3.And(w.a == lo, w.b == hi)
+        vstores = [e for e in stores if e["srclen"] is not None and e["tgt"].role == "data"]
+        nstores = [e for e in stores if e not in vstores]
+        flev = next((e["out"] for e in evs if e["kind"] == "filtered" and e["src"].root is lev and e["cmp"] is None), None)
+
+        def is_flev_mask(sel, op):
+            return flev is not None and sel[0] == "mask" and sel[1].arr.root is flev and sel[1].op == op \
+                and z3.is_true(z3.simplify(sel[1].val == S.max_def)) and z3.is_true(z3.simplify(z3.And(sel[1].arr.off == 0, sel[1].arr.n == flev.n)))
+        g = z3.BoolVal(False)
+        inner = None
+        if len(vstores) == 1:
+            v = vstores[0]
+            sh = unopt(v["src"]).h if isinstance(unopt(v["src"]), Custom) else None
+            inner = sh.idx if isinstance(sh, Lookup) else (unopt(sh.x).h if isinstance(sh, Conv) and isinstance(unopt(sh.x), Custom) else sh)
+            c = filt(inner.root) if isinstance(inner, Arr) else None
+            if c is not None and c[1].root is vals and z3.is_true(z3.simplify(z3.And(c[1].off == 0, c[1].n == vals.n, inner.off == 0, inner.n == inner.root.n))):
+                by_def = c[3] is not None and c[3].arr.root is lev and c[3].op == "==" and z3.is_true(z3.simplify(c[3].val == S.max_def))
+                g = z3.And(win_ok(c[2]),
+                           z3.If(nn == 0, z3.BoolVal(c[3] is None and v["sel"] == ("all",)),
+                                 z3.BoolVal(by_def and is_flev_mask(v["sel"], "=="))),
+                           z3.BoolVal(flev is None) if c[3] is None else (win_ok(filt(flev)[2]) if flev is not None else z3.BoolVal(False)))
+        eng.oblige(r, fn + ".data_page.kept_values_are_the_selected_values_of_the_page_in_order", "post", g, st,
+                   "exactly one store of values: the page's values at the selected (and defined) positions of ITS mask window, in order, into "
+                   "the defined positions of the kept rows")
+        mask_store = any(e["tgt"].role == "mask" and e["sel"] == ("all",) and isinstance(unopt(e["src"]), Custom)
+                         and isinstance(unopt(e["src"]).h, CmpMask) and is_flev_mask(("mask", unopt(e["src"]).h), "!=") for e in nstores)
+        nan_store = [e for e in nstores if e["tgt"].role == "data" and is_flev_mask(e["sel"], "!=")]
+        eng.oblige(r, fn + ".data_page.null_positions_get_null", "post",
+                   z3.Implies(nn > 0, z3.If(C.assign.masked, z3.BoolVal(mask_store),
+                                            z3.Or(C.assign.kind == ord("O"),
+                                                  z3.And(z3.BoolVal(len(nan_store) == 1), *[marker_ok(e["src"], C.assign.kind, cat) for e in nan_store])))), st,
+                   "kept rows whose definition level is below the maximum get the null of the output's kind")
+        if len(vstores) == 1 and not cat:
+            through = isinstance(sh, Lookup) and isinstance(sh.table, DictVal)
+            eng.oblige(r, fn + ".data_page.dictionary_indices_dereferenced_through_chunk_dictionary", "post",
+                       z3.Implies(is_dict, z3.And(sh.table.page == 0, z3.BoolVal(sh.table.converted), sh.table.n == p0.dnv) if through else z3.BoolVal(False)), st)
+            eng.oblige(r, fn + ".data_page.plain_page_not_routed_through_dictionary", "post",
+                       z3.Implies(z3.Not(is_dict), z3.BoolVal(isinstance(sh, Conv))), st)
+
     ord_ = loop_ordinal(funcs[fn])
     eng = PEngine(funcs=funcs, handlers=h, opaque_calls=True, loops={(fn, ord_): LoopSpec("hook", inv=page_loop)})
     p = Path()
@@ -2225,7 +2436,7 @@ def run_read_col(ctx, funcs, timeout, mode, any_sizes=False):
         ctx.engine_error(tag + ": precondition unsatisfiable")
     column = Rec("ColumnChunk", {"meta_data": Custom(S.cmd)})
     kw = {"use_cat": PyB(cat), "selfmade": PyB(C.selfmade), "assign": Custom(Arr(C.assign)),
-          "catdef": Custom(CatDef()) if cat else NONE, "row_filter": NONE}
+          "catdef": Custom(CatDef()) if cat else NONE, "row_filter": Custom(M) if mask else NONE}
     # lemma: VS is monotone (induction over the page index; used instantiated)
     a_, b_ = z3.Int("a"), z3.Int("b")
     pgb, factsb = C.page_facts(b_)
@@ -2262,6 +2473,11 @@ def run_read_col(ctx, funcs, timeout, mode, any_sizes=False):
         if q.ctl[0] == "ret" and "exit_k" in q.ghost:
             n_exit += 1
             num = eng.as_int(q.ghost["locals:" + fn]["num"], q)
+            if mask:
+                eng.pose(q, fn + ".exit.all_selected_rows_written_no_overrun", z3.And(num == PC(0, M.L), num == C.len_assign),
+                         "the loop ends with num == number of True entries of the whole mask == length of the filtered output: every selected "
+                         "row was written, the mask is used up")
+                continue
             eng.pose(q, fn + ".exit.all_values_placed_no_overrun", num == S.num_values,
                      "the loop ends with num == ColumnMetaData.num_values: the pages tile exactly the chunk's values")
             eng.pose(q, fn + ".exit.every_output_row_written", num == C.len_assign,
@@ -2572,7 +2788,8 @@ def check(ctx, timeout, parts=("dictionary_page", "data_page_v1", "data_page_v2"
     out = []
     runs = {"dictionary_page": run_dictionary_page, "data_page_v1": run_data_page_v1, "data_page_v2": run_data_page_v2,
             "read_col": lambda c, f, t: [run_read_col(c, f, t, "values"), run_read_col(c, f, t, "categorical"),
-                                         run_read_col(c, f, t, "values", any_sizes=True)]}
+                                         run_read_col(c, f, t, "values", any_sizes=True)],
+            "read_col_mask": lambda c, f, t: [run_read_col(c, f, t, "values", mask=True)]}
     for part in parts:
         if part not in runs:
             continue
